@@ -95,7 +95,10 @@ def run(ctx):
                     pre.append("fparse\t%s\t%s\t%s" % (ty, lk, hexs(e))); pmeta.append((c, key, e))
     canon = {}
     for (c, key, e), r in zip(pmeta, run_lib(ctx, pre, "c03canon")):
-        if r.get("ok") and (r.get("printed") or {}).get("tag") == key and r.get("again_ser_equal"):
+        # only the spelling the property allows to differ (numbers, line endings, trailing blanks) is taken from the library;
+        # an example the library would print differently in any other way stays as written, so that the difference shows
+        if r.get("ok") and (r.get("printed") or {}).get("tag") == key and r.get("again_ser_equal") \
+                and engine.canon_content(r["printed"]["content"]) == engine.canon_content(e):
             canon.setdefault((c, key, e), r["printed"]["content"])
     msgs, meta = [], []
     for c in mtgen.SUPPORTED:
@@ -156,13 +159,28 @@ def run(ctx):
                 kid = None
                 in_toks = [(t, cn) for t, cn in toks]
                 out_toks = engine.body_tokens(lib["block4"])
-                for k in known:
-                    m = k.get("match", {})
-                    if m.get("kind") == "spec_reprint" and len(in_toks) == len(out_toks):
-                        diff = [a[0] for a, b in zip(in_toks, out_toks) if a != b]
-                        if diff and all(re.fullmatch(m["tag_re"], t) for t in diff):
-                            kid = k["id"]; break
-                if kid:
+                # every differing field must be explained by a listed finding (by tag, and by the shape of the change when given)
+                if len(in_toks) == len(out_toks):
+                    diffs = [(a, b) for a, b in zip(in_toks, out_toks) if a != b and not (a[0] == b[0] and engine.canon_content(a[1]) == engine.canon_content(b[1]))]
+                    kids = []
+                    for a, b in diffs:
+                        hit1 = None
+                        for k in known:
+                            m = k.get("match", {})
+                            if m.get("kind") == "spec_reprint" and a[0] == b[0] and re.fullmatch(m["tag_re"], a[0]):
+                                if m.get("rule") == "comma_dropped" and re.sub(r"(\d),(?!\d)", r"\1", a[1]) != b[1]:
+                                    continue
+                                hit1 = k["id"]; break
+                        kids.append(hit1)
+                    if diffs and all(kids):
+                        kid = kids[0]
+                        for extra in kids[1:]:
+                            ctx.known_hits[extra] = ctx.known_hits.get(extra, 0) + 1
+                    elif not diffs:
+                        kid = "_same"
+                if kid == "_same":
+                    pass
+                elif kid:
                     ctx.known_hits[kid] = ctx.known_hits.get(kid, 0) + 1
                     wp = os.path.join(ROOT, "corpus", PROP, "MT%s_%s.b4" % (c, kid))
                     if os.environ.get("VERIF_SAVE_WITNESS") and not [f for f in os.listdir(os.path.dirname(wp)) if f.endswith(kid + ".b4")]:
